@@ -33,7 +33,7 @@ func runC06(c *Ctx) {
 	for _, st := range []struct {
 		name string
 		f    func(*Ctx)
-	}{{"mel", melSuite}, {"uvlc", uvlcSuite}, {"vlc", vlcSuite}, {"levels", levelsSuite}, {"qcd", qcdSuite}, {"block", blockSuite}, {"bigblock", bigBlockSuite}} {
+	}{{"mel", melSuite}, {"uvlc", uvlcSuite}, {"vlc", vlcSuite}, {"levels", levelsSuite}, {"qcd", qcdSuite}, {"block", blockSuite}, {"blockmodel", blockModelSuite}, {"bigblock", bigBlockSuite}} {
 		t0 := time.Now()
 		st.f(c)
 		c.R.Note("ht.%s: %.1fs", st.name, time.Since(t0).Seconds())
